@@ -139,7 +139,7 @@ void World::opEnc(const Item& op)
         // caller's iterator). C10: what it left behind must not show in the call that follows.
         const size_t amax = static_cast<size_t>(std::max<int64_t>(25, op.get("abmax", static_cast<int64_t>(maxB))));
         if (n.enc->encodeAborted(specs, std::min(minB, amax), amax, static_cast<size_t>(op.get("abort")), static_cast<int>(op.get("abwhere", 0))))
-            fault("encode-call-aborted-by-exception");
+            fault(op.get("abwhere", 0) == 2 ? "encode-call-aborted-by-allocation-failure" : "encode-call-aborted-by-exception");
         res.apiCalls++;
     }
     std::vector<Bytes> frames = n.enc->encode(specs, minB, maxB, mode);
